@@ -451,7 +451,8 @@ def render_decls(dtd, ch=None):
     for nm, nt, loc in dtd.unparsed:
         out.append((loc, '<!ENTITY %s SYSTEM "%s.bin" NDATA %s>' % (nm, nm, nt), ('U', nm)))
     for nm, e in dtd.entities.items():
-        out.append((e['loc'], '<!ENTITY %s "%s">' % (nm, render_nodes(e['nodes'])), ('G', nm)))
+        val = render_nodes(e['nodes'])
+        out.append((e['loc'], ('<!ENTITY %s \'%s\'>' if '"' in val else '<!ENTITY %s "%s">') % (nm, val), ('G', nm)))
     if ch:
         # random order (Fisher-Yates through the chooser)
         for i in range(len(out) - 1, 0, -1):
@@ -768,9 +769,31 @@ def gen_valid_doc(ch, dtd, size='quick'):
     sa = ch.weighted([(None, 4), ('no', 1), ('yes', 3 if dtd.has_external() or any(l == 'epe' for l in _all_locs(dtd)) else 1)])
     g = InstanceGen(ch, dtd, sa, maxdepth=4 if size == 'quick' else 5, fuel=25 if size == 'quick' else 60)
     root = g.finish(g.element(dtd.root, 0, True))
+    root = entitise(ch, dtd, root, sa)
     doc = {'standalone': sa, 'doctype': dtd.root, 'root': root}
     if sa == 'yes' and sa_ambiguous(dtd, doc): doc['standalone'] = None
     return doc
+
+def entitise(ch, dtd, root, sa):
+    """move a run of child elements of an element-content element into an internal general entity and reference it (section 4.4.2:
+    the replacement text is processed in place of the reference, so validity is unchanged)"""
+    count = [0]
+    def walk(n):
+        if n[0] != 'e': return n
+        kids = [walk(c) for c in n[3]]
+        cm = dtd.elements.get(n[1])
+        idx = [i for i, c in enumerate(kids) if c[0] == 'e']
+        if cm and cm[0] == 'CH' and idx and count[0] < 2 and ch.chance(1, 6):
+            i = ch.pick(idx); j = ch.pick([k for k in idx if k >= i][:3])
+            run = kids[i:j + 1]
+            text = render_nodes(run)
+            if "'" not in text and '%' not in text:
+                count[0] += 1
+                nm = 'ge%d' % count[0]
+                dtd.entities[nm] = {'nodes': run, 'loc': 'int' if sa == 'yes' else ch.pick(['int', 'int', 'ext', 'epe'])}
+                kids = kids[:i] + [('er', nm)] + kids[j + 1:]
+        return ('e', n[1], n[2], kids, n[4])
+    return walk(root)
 
 def _all_locs(dtd):
     return list(dtd.elem_loc.values()) + [a['loc'] for al in dtd.attlists.values() for a in al]
@@ -1059,6 +1082,13 @@ def exhaustive_doc(cm, alphabet, L, leaf_models, ch=None, loc='int'):
         if cm[0] == 'MIXED' and k % 4 == 0: body = 'x' + body + ('y' if seq else '')
         if cm[0] == 'CH' and k % 5 == 0 and seq: body = body + ' '
         lines.append('<E>%s</E>' % body if (seq or k % 2) else '<E/>')
+        ok, agree = m.accepts(seq)
+        rows.append((line, seq, ok, agree))
+    # a few long sequences (the per-element child array of the scanner grows at 32, 40, 50 entries): short sequences pumped up
+    for j, w in enumerate([list(t) for n in (1, 2, 3) for t in itertools.product(alphabet, repeat=n)][:10]):
+        seq = (w * 60)[:33 + 2 * j + (8 if j % 3 == 2 else 0)]
+        line += 1
+        lines.append('<E>%s</E>' % ''.join('<%s/>' % n for n in seq))
         ok, agree = m.accepts(seq)
         rows.append((line, seq, ok, agree))
     lines.append('</r>')
